@@ -310,6 +310,7 @@ def body_ctor_struct(inp, H, W):
                       ("array.apply_mask", lambda: src.apply_mask(mask=m)),
                       ("Kernel2D(values=array,normalize)", lambda: aa.Kernel2D(values=src, mask=m_all, normalize=True, store_native=sn)),
                       ("Kernel2D(values=array,normalize,slim)", lambda: aa.Kernel2D(values=src, mask=m_all, normalize=True))):
+            before = _snap(src)
             _mk(f)
             A["%s,%s:source" % (nm, t)] = _snap(src)
             E["%s,%s:source" % (nm, t)] = before
@@ -320,6 +321,7 @@ def body_ctor_struct(inp, H, W):
                        ("VectorYX2D(values=grid,grid=grid)", lambda: aa.VectorYX2D(values=gsrc, grid=gsrc, mask=m))) if sn else ()) + (
                       ("Grid2D(values=grid,same mask)", lambda: aa.Grid2D(values=gsrc, mask=m_all, store_native=not sn)),
                       ("VectorYX2D.from_mask", lambda: aa.VectorYX2D.from_mask(values=gsrc.native, mask=m))):
+            before = _snap(gsrc)
             _mk(f)
             A["%s,%s:source" % (nm, t)] = _snap(gsrc)
             E["%s,%s:source" % (nm, t)] = before
@@ -336,6 +338,8 @@ def body_ctor_graph(inp, H, W):
     """datasets, simulator, mappers, valued mappers, inversions: construction leaves every object passed in unchanged"""
     import autoarray as aa
     from autoarray.inversion.inversion import factory
+    from autoconf import conf
+    conf.instance["general"]["inversion"]["check_reconstruction"] = False     # (a fork on "all values equal" per solve otherwise)
     _install_linalg_stub()
     inner = np.array(inp["mask"], dtype=bool).reshape(H, W)
     mask_in = np.ones((H + 2, W + 2), dtype=bool)       # one masked ring around the forked mask: room for the 3x3 PSF
@@ -466,7 +470,9 @@ def case_ctor_struct(ctx, H, W):
         # region: the mask has at least one masked pixel (there the caller's native (y,x) entries are overwritten by 0)
         reg = z3.BoolVal(bool(mask.any()))
         for key in ("Grid2D(native,sn0):values", "Grid2D(native,sn1):values", "VectorYX2D(native,sn0):values",
-                    "VectorYX2D(native,sn1):values", "VectorYX2D(native,sn0):grid", "VectorYX2D(native,sn1):grid"):
+                    "VectorYX2D(native,sn1):values", "VectorYX2D(native,sn0):grid", "VectorYX2D(native,sn1):grid",
+                    "Grid2D(values=grid),sn1:source", "Grid2D(values=grid,native),sn1:source",
+                    "VectorYX2D(values=grid,grid=grid),sn1:source", "VectorYX2D.from_mask,sn1:source"):
             known[key] = {"grid-native-input-masked-in-place": reg}
     hx.run_body(ctx, body_ctor_struct, inputs, {"H": H, "W": W}, validate_every=64, known=known)
 
@@ -576,7 +582,7 @@ def _hist_case(ctx, level, inputs, kw, k, op0=None, tol=None, validate_every=97)
     known = {}
     ids = _known_ids()
     for fid, pred in KNOWN_REGIONS.get(level, {}).items():
-        if fid in ids and pred(names, obs[j][0], ops, hist):
+        if fid in ids and pred(names, obs[j][0], ops, kw):
             known.setdefault(obs[j][0], {})[fid] = z3.BoolVal(True)
     kw2 = dict(kw)
     kw2["level"] = level
@@ -653,7 +659,7 @@ def _arith_or_slice(name):
 def _stale_cache_region(attr):
     """a cached quantity `attr` was read on an object and a later derivation by arithmetic / slicing carried the cache
     into the derived object, whose own `attr` is then observed"""
-    def pred(names, obs_name, ops, hist):
+    def pred(names, obs_name, ops, kw):
         if obs_name != "d." + attr:
             return False
         seen_x = seen_d = False     # cache present on x / on the current d
@@ -672,8 +678,8 @@ def _stale_cache_region(attr):
 
 
 KNOWN_REGIONS["vis"] = {
-    "stale-cache-after-derivation": lambda names, o, ops, hist: any(_stale_cache_region(a)(names, o, ops, hist) for a in ("amplitudes", "phases")),
-    "visibilities-ordered-1d-not-rederived": lambda names, o, ops, hist: o == "d.ordered_1d (own contents)",
+    "stale-cache-after-derivation": lambda names, o, ops, kw: any(_stale_cache_region(a)(names, o, ops, kw) for a in ("amplitudes", "phases")),
+    "visibilities-ordered-1d-not-rederived": lambda names, o, ops, kw: o == "d.ordered_1d (own contents)",
 }
 
 
@@ -836,10 +842,29 @@ def level_grid(inp, mask_id, sn, full=False):
     return build, ops, obs
 
 
+def _grid_rewrap_region(names, obs_name, kw):
+    """same in-place masking, seen as a read changing its own object: a NATIVE-stored grid whose masked entries are
+    non-zero (after `x - off`) is re-wrapped by .native / .slim (Grid2D(values=self, mask)), which zeroes those entries
+    of the object itself"""
+    if not kw.get("sn") or not obs_name.startswith("d"):
+        return False
+    dirty = False
+    for nm in names:
+        if nm == "d=x-off":
+            dirty = True
+        elif nm.startswith("d=x") or nm == "d=d.native":
+            if dirty and nm == "d=d.native":
+                return True
+            dirty = False
+        elif nm in ("d.native", "d.slim") and dirty:
+            return True
+    return False
+
+
 LEVELS["grid"] = level_grid
 KNOWN_REGIONS["grid"] = {
-    "stale-cache-after-derivation": lambda names, o, ops, hist: _stale_cache_region("is_uniform")(names, o, ops, hist),
-    "grid-native-input-masked-in-place": lambda names, o, ops, hist: False,
+    "stale-cache-after-derivation": lambda names, o, ops, kw: _stale_cache_region("is_uniform")(names, o, ops, kw),
+    "grid-native-input-masked-in-place": lambda names, o, ops, kw: _grid_rewrap_region(names, o, kw),
 }
 
 
@@ -888,7 +913,7 @@ def level_mask(inp, H, W, full=False):
 
 LEVELS["mask"] = level_mask
 KNOWN_REGIONS["mask"] = {
-    "stale-cache-after-derivation": lambda names, o, ops, hist: _stale_cache_region("circular_radius")(names, o, ops, hist),
+    "stale-cache-after-derivation": lambda names, o, ops, kw: _stale_cache_region("circular_radius")(names, o, ops, kw),
 }
 
 
@@ -975,7 +1000,7 @@ def level_imaging(inp, mask_id, full=False, snr=False):
     return build, ops, obs
 
 
-def _stale_dataset_region(names, obs_name, ops, hist):
+def _stale_dataset_region(names, obs_name, ops, kw):
     """cached `grids` / `convolver` of a dataset travel into the shallow copy made by trimmed_after_convolution_from"""
     key = {"d.grids.uniform": "grids", "d.grids.blurring": "grids", "d.convolver": "convolver"}.get(obs_name)
     if key is None:
@@ -1010,11 +1035,9 @@ def case_hist_imaging(ctx, mask_id, k, op0=None, full=False, snr=False):
     noise = V.real_array("n", (H, W))
     for e in noise.reshape(-1):
         ctx.assume(e.t >= z3.RealVal("1/2"))
-    if snr:
-        psf = np.array([[0.0, 0.25, 0.0], [0.25, 1.0, 0.25], [0.0, 0.25, 0.0]])    # keeps the sign decisions linear
-    else:
-        psf = V.real_array("p", (3, 3))
-        ctx.assume(z3.Sum([e.t for e in psf.reshape(-1)]) >= z3.RealVal("1/2"))
+    # concrete PSF at this level (its normalisation p/sum(p) would make every path condition non-linear; the symbolic
+    # PSF is covered by case_ctor_graph and case_rng)
+    psf = np.array([[0.0, 0.25, 0.0], [0.25, 1.0, 0.25], [0.0, 0.25, 0.0]])
     inputs = {"data": V.real_array("d", (H, W)), "noise": noise, "psf": psf, "origin": [V.real("oy"), V.real("ox")], "c": V.real("c")}
     _hist_case(ctx, "imaging", inputs, {"mask_id": mask_id, "full": full, "snr": snr}, k, op0)
 
@@ -1134,7 +1157,7 @@ def level_inversion(inp, mask_id, w_tilde, full=False):
     return build, ops, obs
 
 
-def _mv_region(names, obs_name, ops, hist):
+def _mv_region(names, obs_name, ops, kw):
     """a MapperValued query with a mesh_pixel_mask ran before the observation (values_masked / mapped_reconstructed_image_from
     zero the caller's values and the mapper's cached mapping matrix in place), or the observation is such a query itself
     compared with its own first-call value"""
@@ -1395,6 +1418,17 @@ def case_rng(ctx, H, W):
     p1, p2 = V.integer("prior1"), V.integer("prior2")
     ctx.assume(z3.And(p1.t >= 0, p2.t >= 0, p1.t < 2 ** 31, p2.t < 2 ** 31))
     inputs = {"image": image, "t": t, "sky": sky, "sigma": sigma, "seed": seed, "prior": [p1, p2], "psf": psf}
+    # sqrt (noise map) as an uninterpreted function in this case: determinism only needs congruence, and the path
+    # condition stays free of the non-linear definitional constraints r*r == t
+    fsqrt = z3.Function("uf_sqrt", z3.RealSort(), z3.RealSort())
+
+    def usqrt(t):
+        t = z3.simplify(t)
+        if z3.is_rational_value(t):
+            return np.float64(float(t.numerator_as_long()) / float(t.denominator_as_long())) ** 0.5
+        return V.SymReal(fsqrt(t))
+
+    ctx.sqrt = usqrt
     hx.run_body(ctx, body_rng, inputs, {"H": H, "W": W}, validate_every=1, tol=None)
 
 
